@@ -26,7 +26,7 @@ const DENY: &[&str] = &[
 const NUMS: [&str; 16] = ["0", "1", "-1", "2", "3", "10", "255", "65536", "-100000", "99999999999999999999", "1.5", "-0.0", "1e309", "NaN", "0x1F", "٣"];
 const TEXTS: [&str; 18] = ["", " ", "a", "abc", "a b", "héllo", "日本語", "\u{0}", "é", "\u{1F600}", "A-b_c D", "a,b,,c", "k=v", "x\ty", "%", "/", ".", "true"];
 const FLAGS: [&str; 14] = ["--", "-r", "--recursive", "--copy", "--prefix", "-e", "-d", "-encode", "-decode", "--help", "--collection", "--order", "--pretty", "--full"];
-const DOCS: [&str; 10] = ["{}", "[]", "[1,2", "{\"a\":1,\"b\":[true,null,{\"c\":\"d\"}]}", "null", "\"s\"", "1.2.3", "1.x", "a=b\nc=d", "YWJj"];
+const DOCS: [&str; 12] = ["{\"name\":\"x\",\"住所録\":{\"city\":\"tokyo\"}}", "{\"日\":{\"a\":1},\"éé\":{\"b\":[1,{\"ç\":2}]}}", "{}", "[]", "[1,2", "{\"a\":1,\"b\":[true,null,{\"c\":\"d\"}]}", "null", "\"s\"", "1.2.3", "1.x", "a=b\nc=d", "YWJj"];
 
 pub fn gen(r: &mut Rng) -> Value {
     if r.chance(1, 6) {
@@ -39,6 +39,10 @@ pub fn gen(r: &mut Rng) -> Value {
     let names = pool_cached();
     if names.is_empty() {
         return json!({"text": ""});
+    }
+    if r.chance(1, 12) {
+        // a document parsed into variables and encoded back (object / array paths with names outside ASCII)
+        return json!({"lines": [{"name": "json_parse", "args": [r.pick(&DOCS)]}, {"name": "json_encode", "args": ["out"]}]});
     }
     let n = 1 + r.below(5);
     let lines: Vec<Value> = (0..n)
